@@ -15,6 +15,7 @@ import CelloProofs.Lemmas.FmtNow
 import CelloProofs.Lemmas.FmtParse
 import CelloProofs.Lemmas.FmtCalls
 import CelloProofs.Lemmas.FmtShow
+import CelloProofs.Lemmas.FmtBuiltin
 
 namespace Cello.Fmt
 
@@ -117,6 +118,19 @@ theorem C14_bounds (prim : Str → PVal → Str) (shw : Obj → Out → Out × O
   obtain ⟨mk', h, h1, h2⟩ := printToWith_refines cfgNow prim shw args C14_scan_set.1 segs hwf o
   simp only [h]
   exact ⟨h1, h2, fun hs => refRun_not_oob cfgNow prim shw hs args segs 0 o⟩
+
+/-- every format the built-in Show instances pass to `print_to` (read from the source) is well-formed -/
+theorem C14_show_formats_wf : ∀ f ∈ showNow.formats, (parseFmt cfgNow.conv f).isSome = true := by
+  decide
+
+/-- **C14_bounds with the built-in Show instances**: no hypothesis about `show` is left — Int, Float, String, Array,
+    Tuple, List arguments (nested to any depth, any recursion fuel) never make `print_to_with` leave its buffers. -/
+theorem C14_bounds_builtin (prim : Str → PVal → Str) (d : Nat)
+    (segs : List Seg) (hwf : wfSegs cfgNow.conv segs = true) (args : List Obj) (o : Out) :
+    let r := printTo cfgNow prim showNow d (render segs) args o
+    r.marks.rdMax ≤ (render segs).length ∧ r.marks.wrMax ≤ (render segs).length ∧ r.oc ≠ .oob := by
+  have h := C14_bounds prim (showD cfgNow prim showNow d) segs hwf args o
+  exact ⟨h.1, h.2.1, h.2.2 (showD_not_oob cfgNow prim showNow C14_scan_set.1 C14_show_formats_wf d)⟩
 
 /-! ## T1: position and sinks -/
 
